@@ -45,7 +45,7 @@ def _vm_script(tok):
         return "(@nil ev)"
     out = []
     for t in tok.split(","):
-        out.append("Zero" if t == "Z" else "Fail" if t == "F" else "Data %s" % _vm_str(t[1:]))
+        out.append("Zero" if t == "Z" else "Fail" if t == "F" else "Eof" if t == "E" else "Data %s" % _vm_str(t[1:]))
     return "[" + "; ".join(out) + "]"
 
 
@@ -240,7 +240,7 @@ CONFIG = {
         "the digest function is a parameter H : algorithm -> bytes -> encoded digest of every theorem, with NO assumption (no collision freedom is used); the correspondence supplies the SHA-2 values (crypto/sha256, crypto/sha512 of the Go standard library) to the extracted model as a table",
         "go-digest (pinned dependency): the algorithm table (names, encoded lengths, lower-case hex) is regenerated by the translator from its algorithm.go (kind c05_digest_algs); Digest.Validate's control flow and Verified() = (digest == alg:hex(hash)) are hand-modelled; all three algorithms are available because the harness links crypto/sha256 and crypto/sha512",
         "io.LimitedReader, io.TeeReader, io.ReadFull (io.ReadAtLeast) and io.CopyBuffer (incl. its write-error / io.ErrShortWrite handling: copy_loop_w) of the Go standard library are hand-modelled statement by statement and tied by the correspondence; os.File.ReadFrom falls back to io.Copy with a 32 KiB buffer for a *VerifyReader source (go1.26.8, linux) -- irrelevant: the theorems hold for every buffer size and C05_copybuffer_bufsz_independent proves the result is the same for all of them",
-        "reader scripts: EOF is sticky (a reader that delivers data or an error after io.EOF is not expressible); several injected errors per script, 0-byte reads and data+EOF / data+error in one call are",
+        "reader scripts quantify over arbitrary chunking, 0-byte reads, any number of injected errors, data+EOF / data+error in one call, and readers for which io.EOF is not final (an Eof event answers (0, EOF) once and the script goes on); the clauses 'the whole reader equals the result', 'trailing bytes are an error', 'a failing reader is rejected' and the completeness theorems are stated for scripts without such a mid-script EOF (neof = 0): what lies behind an EOF is never read",
         "descriptor sizes above 2^30 are outside the CORRESPONDENCE (the extracted model counts in Peano numbers) but inside theorems and oracle: Size 1<<62 / MaxInt64 are generated for ReadAll and the memory / limited / OCI / file stores under recover() (oracle: an error, no panic); they are not generated for the caching proxy, whose push goroutine cannot be guarded by the harness",
         "file system: os.CreateTemp names are unique, os.Rename is atomic and replaces the target (process runs as root), blobs/<alg>/<encoded> is injective in the digest string; disk faults of oci.Storage / file.Store (ENOSPC, a failing Close) are not injected -- note: file.Store.saveFile records digestToPath before the deferred Close, which a Close error would leave behind (not observable by this check)",
         "file.Store: resolveWritePath is modelled for relative slash-separated names (lexical filepath.Clean, refusal of names that leave the working directory; absolute names are generated only outside the working directory and refused) and compared with filepath.Clean on every generated name; symbolic links in the working directory, AllowPathTraversalOnWrite, the unpack annotation (pushDir) and manifest media types (restoreDuplicates, graph indexing) are not generated; names that alias one path ARE generated and modelled: there the property fails (known finding file-alias-clobbers-visible; C05_push_file_names assumes no_alias, C05_push_file_alias_refuted is the witness, C05_push_file_disable_overwrite needs no such hypothesis)",
@@ -250,7 +250,7 @@ CONFIG = {
         "the in-Coq vm_compute re-evaluation of correspondence cases (ReadAll, CopyBuffer, faulty destination, store / file / proxy histories): about 70 goals in the quick tier, 360 in the thorough tier",
     ],
     "level_text": "Coq theorems for every reader script (arbitrary chunking, 0-byte reads, errors at any offsets, data with EOF/error), every descriptor, every digest function and every fuel above the script weight: ReadAll / FetchAll / any use of VerifyReader / CopyBuffer (any buffer size, also into a failing or short-writing destination) succeed only with exactly the descriptor's bytes and an exhausted reader, and do succeed on every well-behaved reader of the right bytes; malformed or unsupported digest, negative size, short or failing reader, wrong first-Size bytes and trailing bytes are always errors; Push on memory, limited, OCI and file stores (resolveWritePath and the options DisableOverwrite / IgnoreNoName / fallback limit included) stores exactly those bytes or leaves Exists/Fetch/blobs unchanged, over all histories; the caching proxy's cache only ever holds verified content over all fetch histories; three transition systems (OCI, memory/limited, named file pushes) keep everything visible verified under every schedule; refuted witnesses for the pre-fix negative size and for file-name aliasing. Model tied to the code by differential runs (scripted readers x descriptors x push / fetch histories on the real stores and wrappers, listings of blobs/, ingest/ and the working directory, a final sweep of every descriptor), outcome membership of goroutine races in the exhaustively explored (sound + complete) model outcomes, translator-regenerated digest table and source facts, an in-Coq vm_compute sample, and an independent SHA-2 oracle",
-    "level_note": "digest function abstract (no SHA-2 model); Go io helpers hand-modelled and tied by correspondence, AST hashes and 17 translator-checked source facts; go-digest table regenerated; readers that continue after io.EOF, sizes > 2^30 (oracle only), disk faults, symlinks / unpack / manifests in file.Store and non-closing proxy callers are not modelled; file.Store name aliasing violates the property (known finding file-alias-clobbers-visible; full theorems under no_alias or DisableOverwrite); concurrency theorems are tied to the code by outcome membership of small races, not by syscall traces",
+    "level_note": "digest function abstract (no SHA-2 model); Go io helpers hand-modelled and tied by correspondence, AST hashes and 17 translator-checked source facts; go-digest table regenerated; sizes > 2^30 (oracle only), disk faults, symlinks / unpack / manifests in file.Store and non-closing proxy callers are not modelled; file.Store name aliasing violates the property (known finding file-alias-clobbers-visible; full theorems under no_alias or DisableOverwrite); concurrency theorems are tied to the code by outcome membership of small races, not by syscall traces",
     "technique": "machine-checked proof in Coq (invariants of the VerifyReader state machine over all reader scripts, store invariants over all push histories, transition-system invariant over all interleavings) + translator-regenerated constants/AST anchors + model/implementation correspondence",
     "explanation": "theorems about an executable model of content/reader.go, internal/ioutil/io.go, cas.Memory, LimitedStorage, oci.Storage.Push and file.Store.push whose reader is an arbitrary script; the extracted model and the real code are run on the same generated scripts/descriptors/push histories and their results, Exists/FetchAll observations and directory listings are diffed; an independent oracle recomputes SHA-2 and checks the property statement directly (also under goroutine races and through the caching proxy)",
 }
